@@ -26,6 +26,7 @@ import (
 	"sort"
 	"strconv"
 	"strings"
+	"sync"
 	"testing"
 	"testing/synctest"
 	"time"
@@ -407,6 +408,7 @@ type env struct {
 	// the attester duties requests of Subscribe are parked until the driver releases them
 	views      map[uint64]*View
 	parked     []parkedReq
+	pmu        sync.Mutex // guards parked
 	failParked bool
 	starting   bool // the controller's constructor is running
 }
@@ -418,6 +420,8 @@ type parkedReq struct {
 
 // release lets the first parked duties request of the epoch go on; false if there is none.
 func (e *env) release(epoch uint64) bool {
+	e.pmu.Lock()
+	defer e.pmu.Unlock()
 	for i, p := range e.parked {
 		if p.epoch == epoch {
 			e.parked = append(e.parked[:i:i], e.parked[i+1:]...)
@@ -440,7 +444,9 @@ func (e *env) AttesterDuties(ctx context.Context, opts *api.AttesterDutiesOpts) 
 	e.meanwhile()
 	if e.views != nil {
 		ch := make(chan struct{})
+		e.pmu.Lock() // the two start-up subscriptions of the constructor ask side by side
 		e.parked = append(e.parked, parkedReq{uint64(opts.Epoch), ch})
+		e.pmu.Unlock()
 		select {
 		case <-ch:
 		case <-ctx.Done():
@@ -709,10 +715,12 @@ func runCase(t *testing.T, in Input) (obs []Obs) {
 	defer func() {
 		// whatever happens, no duties request stays parked when the bubble ends
 		e.failParked = true
+		e.pmu.Lock()
 		for _, p := range e.parked {
 			close(p.ch)
 		}
 		e.parked = nil
+		e.pmu.Unlock()
 	}()
 	ct := mocks.NewChainTime(in.SPE)
 	sched := mocks.NewRecScheduler()
@@ -810,10 +818,12 @@ func runCase(t *testing.T, in Input) (obs []Obs) {
 			return
 		}
 		e.failParked = true
+		e.pmu.Lock()
 		for _, p := range e.parked {
 			close(p.ch)
 		}
 		e.parked = nil
+		e.pmu.Unlock()
 		synctest.Wait()
 		e.failParked = false
 		e.views = nil
